@@ -61,22 +61,33 @@ fn scope(tier: Tier) -> Vec<Case> {
             out.push(Case { family: family.to_string(), prog: p });
         }
     };
-    for f in families::families(tier == Tier::Thorough) {
-        push(f.family, f.prog, &mut out);
+    // complete in both tiers: one or two programs per shape class of the design
+    for p in families::sentinels() {
+        push("sentinels", p, &mut out);
     }
-    let plain = progs::plain_programs(100000);
-    let dflt = progs::default_programs(100000);
-    let (np, nd) = match tier {
-        Tier::Quick => (plain.len().div_ceil(8), dflt.len().div_ceil(8)),
-        Tier::Thorough => (plain.len(), dflt.len()),
-    };
-    // quick: every 8th program of U_P (the families above are complete in both tiers)
-    let sp = plain.len().div_ceil(np.max(1)).max(1);
-    for p in plain.into_iter().step_by(sp) {
+    // quick: every k-th program of each family (k per family); thorough: all of them
+    let fams = families::families(tier == Tier::Thorough);
+    let mut pos: BTreeMap<&'static str, usize> = BTreeMap::new();
+    for f in fams {
+        let k = match tier {
+            Tier::Thorough => 1,
+            Tier::Quick => match f.family {
+                "anon-paths" => 5,
+                "recursion" | "name-collisions" => 3,
+                _ => 4,
+            },
+        };
+        let n = pos.entry(f.family).or_insert(0);
+        if *n % k == 0 {
+            push(f.family, f.prog, &mut out);
+        }
+        *n += 1;
+    }
+    let k = tier.pick(48, 1);
+    for p in progs::plain_programs(100000).into_iter().step_by(k) {
         push("U_P-plain", p, &mut out);
     }
-    let sd = dflt.len().div_ceil(nd.max(1)).max(1);
-    for p in dflt.into_iter().step_by(sd) {
+    for p in progs::default_programs(100000).into_iter().step_by(k) {
         push("U_P-default", p, &mut out);
     }
     out
@@ -183,38 +194,6 @@ fn module_text(idx: usize, e: &EmitOut, items: &[rustlex::Item]) -> scratch::Mod
     scratch::Module { idx, text: s, defs_lo, defs_hi, meth_lo }
 }
 
-/// A key that is itself the program: whitespace inside text literals is spelled as an
-/// escape so that the engine's whitespace folding cannot identify two programs.
-fn key_of(clause: &str, src: &str) -> String {
-    let mut o = String::new();
-    let mut in_str = false;
-    let mut esc = false;
-    for c in src.trim().chars() {
-        if in_str {
-            if esc {
-                esc = false;
-                o.push(c);
-            } else if c == '\\' {
-                esc = true;
-                o.push(c);
-            } else if c == '"' {
-                in_str = false;
-                o.push(c);
-            } else if c == ' ' {
-                o.push_str("\\u{20}");
-            } else {
-                o.push(c);
-            }
-        } else {
-            if c == '"' {
-                in_str = true;
-            }
-            o.push(c);
-        }
-    }
-    format!("{clause}:{o}")
-}
-
 fn excerpt(s: &str, n: usize) -> String {
     if s.chars().count() <= n {
         s.to_string()
@@ -223,14 +202,39 @@ fn excerpt(s: &str, n: usize) -> String {
     }
 }
 
+/// (clause, message, canonical signature used in the violation key)
+type Finding = (&'static str, String, String);
+
+/// rustc names items by module path (`m12::A`): the module number is the harness' own
+fn strip_mod(s: &str) -> String {
+    let cs: Vec<char> = s.chars().collect();
+    let mut o = String::new();
+    let mut i = 0;
+    while i < cs.len() {
+        if cs[i] == 'm' && (i == 0 || !(cs[i - 1].is_alphanumeric() || cs[i - 1] == '_')) {
+            let mut j = i + 1;
+            while j < cs.len() && cs[j].is_ascii_digit() {
+                j += 1;
+            }
+            if j > i + 1 && cs.get(j) == Some(&':') && cs.get(j + 1) == Some(&':') {
+                i = j + 2;
+                continue;
+            }
+        }
+        o.push(cs[i]);
+        i += 1;
+    }
+    o
+}
+
 /// Everything known about one program after the emit phase.
 struct Planned {
     src: String,
     emit: Option<EmitOut>,
     items: Vec<rustlex::Item>,
     module: Option<scratch::Module>,
-    /// violations found before compiling: (clause, message)
-    pre: Vec<(&'static str, String)>,
+    /// violations found before compiling
+    pre: Vec<Finding>,
     rejected: Option<String>,
 }
 
@@ -239,12 +243,12 @@ fn plan(idx: usize, c: &Case) -> Planned {
     let mut pl = Planned { src: src.clone(), emit: None, items: vec![], module: None, pre: vec![], rejected: None };
     match run_emit(&src) {
         Emit::Rejected(e) => pl.rejected = Some(e),
-        Emit::Panic(p) => pl.pre.push(("panic", format!("emit_bindgen panicked: {p}"))),
+        Emit::Panic(p) => pl.pre.push(("panic", format!("emit_bindgen panicked: {p}"), p.clone())),
         Emit::Ok(e) => {
             // same input twice => same output (the generator is a function of the program)
             if let Emit::Ok(e2) = run_emit(&src) {
                 if e2.type_defs != e.type_defs {
-                    pl.pre.push(("panic", "emit_bindgen is not deterministic: two runs give different type_defs".into()));
+                    pl.pre.push(("panic", "emit_bindgen is not deterministic: two runs give different type_defs".into(), "nondeterministic".into()));
                 }
             }
             let items = rustlex::items(&e.type_defs);
@@ -257,7 +261,10 @@ fn plan(idx: usize, c: &Case) -> Planned {
             for (name, n) in &count {
                 if *n > 1 {
                     let defs: Vec<&String> = srcm.all_defs.iter().filter(|d| oracle::norm(d) == oracle::norm(name)).collect();
-                    pl.pre.push(("collapse", format!("{n} emitted items are all named `{name}` (source definitions with that name after case conversion: {defs:?})")));
+                    let mut sorted = defs.clone();
+                    sorted.sort();
+                    let sig = format!("{n} items named {name} for definitions {sorted:?}{}", if defs.len() < *n { " and generated names" } else { "" });
+                    pl.pre.push(("collapse", format!("{n} emitted items are all named `{name}` (source definitions with that name after case conversion: {defs:?})"), sig));
                 }
             }
             let mut by_norm: BTreeMap<String, Vec<&String>> = BTreeMap::new();
@@ -267,8 +274,17 @@ fn plan(idx: usize, c: &Case) -> Planned {
             for (n, defs) in &by_norm {
                 let have: BTreeSet<&str> = items.iter().filter(|it| oracle::norm(&it.name) == *n).map(|it| it.name.as_str()).collect();
                 if have.len() < defs.len() && !have.iter().any(|h| count[h] > 1) {
-                    pl.pre.push(("collapse", format!("definitions {defs:?} are represented by only {} item name(s) {have:?}", have.len())));
+                    pl.pre.push(("collapse", format!("definitions {defs:?} are represented by only {} item name(s) {have:?}", have.len()), format!("definitions {defs:?} as {have:?}")));
                 }
+            }
+            let distinct: BTreeSet<&str> = items.iter().map(|it| it.name.as_str()).collect();
+            let (required, what) = oracle::required_items(&srcm);
+            if distinct.len() < required && !pl.pre.iter().any(|p| p.0 == "collapse") {
+                pl.pre.push((
+                    "collapse",
+                    format!("the program needs at least {required} distinct Rust items ({}) but only {} are emitted: {:?}", what.join("; "), distinct.len(), distinct),
+                    format!("needs {} got {:?}", what.join(";"), distinct),
+                ));
             }
             pl.module = Some(module_text(idx, &e, &items));
             pl.items = items;
@@ -289,24 +305,43 @@ struct Tally {
 
 type DumpRes = Result<oracle::Dumped, String>;
 
+fn err_text(x: &scratch::CompileError) -> String {
+    format!("{}{}", x.message, x.code.as_ref().map(|c| format!(" [{c}]")).unwrap_or_default())
+}
+
 /// Post-build evaluation of one program. Returns (clause, message) findings.
-fn evaluate(c: &Case, pl: &Planned, build: &scratch::BuildResult, idx: usize, tally: &mut Tally) -> Vec<(&'static str, String)> {
-    let mut out: Vec<(&'static str, String)> = vec![];
+/// `build`: the crate with the generated checks; `bare`: the crate holding only the
+/// generator's text of the modules that failed in `build` (decides whether the generator's
+/// text or the harness' export lines are at fault).
+fn evaluate(
+    c: &Case,
+    pl: &Planned,
+    build: &scratch::BuildResult,
+    bare: &scratch::BuildResult,
+    idx: usize,
+    tally: &mut Tally,
+) -> Vec<Finding> {
+    let mut out: Vec<Finding> = vec![];
     let (Some(e), Some(module)) = (&pl.emit, &pl.module) else { return out };
     if let Some(errs) = build.failed.get(&idx) {
         tally.modules_failed += 1;
-        let first = &errs[0];
-        let in_defs = errs.iter().find(|x| x.line >= module.defs_lo && x.line <= module.defs_hi);
-        let in_meth = errs.iter().find(|x| x.line >= module.meth_lo);
-        let dup_only = pl.pre.iter().any(|p| p.0 == "collapse") && errs.iter().all(|x| matches!(x.code.as_deref(), Some("E0428") | Some("E0119") | Some("E0124")));
-        if dup_only {
-            // the duplicate item was already reported as a collapse before compiling
-        } else if let Some(x) = in_defs {
-            out.push(("does-not-compile", format!("type_defs line {}: {}{}", x.line - 1, x.message, x.code.as_ref().map(|c| format!(" [{c}]")).unwrap_or_default())));
-        } else if let Some(x) = in_meth {
-            out.push(("method-differs", format!("a method argument/result type expression of Output.methods does not compile: {}{}", x.message, x.code.as_ref().map(|c| format!(" [{c}]")).unwrap_or_default())));
+        // errors inside the generator's own text decide at once; otherwise the module was rebuilt
+        // with the generator's text alone (`bare`)
+        let in_defs: Vec<&scratch::CompileError> = errs.iter().filter(|x| x.line >= module.defs_lo && x.line <= module.defs_hi).collect();
+        let at_fault: Vec<&scratch::CompileError> = if !in_defs.is_empty() { in_defs } else { bare.failed.get(&idx).map(|b| b.iter().collect()).unwrap_or_default() };
+        if !at_fault.is_empty() {
+            let dup_only = pl.pre.iter().any(|p| p.0 == "collapse") && at_fault.iter().all(|x| matches!(x.code.as_deref(), Some("E0428")));
+            if !dup_only {
+                let x = at_fault[0];
+                out.push(("does-not-compile", format!("type_defs line {}: {}", x.line.saturating_sub(1), err_text(x)), strip_mod(&err_text(x))));
+            }
+        } else if bare.undecided.contains(&idx) {
+            // not decided (reported as an incomplete level)
+        } else if let Some(x) = errs.iter().find(|x| x.line >= module.meth_lo) {
+            out.push(("method-differs", format!("type_defs compiles, but a method argument/result type expression of Output.methods does not: {}", err_text(x)), format!("type expression does not compile: {}", strip_mod(&err_text(x)))));
         } else {
-            out.push(("does-not-compile", format!("an emitted item cannot be used as a CandidType: {}{} (line {})", first.message, first.code.as_ref().map(|c| format!(" [{c}]")).unwrap_or_default(), first.line)));
+            let x = &errs[0];
+            out.push(("does-not-compile", format!("type_defs compiles, but an emitted item cannot be used as a CandidType: {} (line {})", err_text(x), x.line), format!("item unusable: {}", strip_mod(&err_text(x)))));
         }
         return out;
     }
@@ -330,7 +365,7 @@ fn evaluate(c: &Case, pl: &Planned, build: &scratch::BuildResult, idx: usize, ta
             Some("END") => ended = true,
             Some("PANIC") => {
                 let msg = String::from_utf8_lossy(&hex::decode(f.get(2).copied().unwrap_or("")).unwrap_or_default()).to_string();
-                out.push(("panic", format!("computing ty() of the emitted types panicked: {msg}")));
+                out.push(("panic", format!("computing ty() of the emitted types panicked: {msg}"), format!("ty(): {msg}")));
                 return out;
             }
             _ => scratch::machinery(&format!("unreadable line from the generated crate: {l}")),
@@ -340,21 +375,22 @@ fn evaluate(c: &Case, pl: &Planned, build: &scratch::BuildResult, idx: usize, ta
         scratch::machinery(&format!("module m{idx}: output without END marker"));
     }
     let srcm = oracle::source(&c.prog);
-    let (findings, compared) = oracle::compare_items(&srcm, &items);
+    let r = oracle::compare_items(&srcm, &items);
     tally.items_compared += items.len() as u64;
-    tally.comparisons += compared;
-    for f in findings {
-        out.push((f.clause, f.detail));
-    }
+    tally.comparisons += r.comparisons;
+    let mut td: Vec<String> = vec![];
+    td.extend(r.def_mismatch.iter().cloned());
+    td.extend(r.unexplained.iter().cloned());
+    td.extend(r.unmatched_anon.iter().cloned());
     // methods
+    let mut md: Vec<(String, String)> = vec![];
     if let Some(want) = &srcm.methods {
-        let got_names: Vec<&String> = e.methods.iter().map(|m| &m.original_name).collect();
         let mut w: Vec<&String> = want.iter().map(|m| &m.0).collect();
-        let mut g = got_names.clone();
+        let mut g: Vec<&String> = e.methods.iter().map(|m| &m.original_name).collect();
         w.sort();
         g.sort();
         if w != g {
-            out.push(("method-differs", format!("methods of the source service {w:?}, methods emitted {g:?}")));
+            md.push((format!("methods of the source service {w:?}, methods emitted {g:?}"), format!("methods {w:?} emitted as {g:?}")));
         } else {
             for (k, m) in e.methods.iter().enumerate() {
                 let (_, wa, wr) = want.iter().find(|x| x.0 == m.original_name).unwrap();
@@ -362,10 +398,10 @@ fn evaluate(c: &Case, pl: &Planned, build: &scratch::BuildResult, idx: usize, ta
                 let ga: Vec<Option<DumpRes>> = (0..m.args.len()).map(|j| margs.get(&('A', k, j)).cloned()).collect();
                 let gr: Vec<Option<DumpRes>> = (0..m.rets.len()).map(|j| margs.get(&('R', k, j)).cloned()).collect();
                 if let Some(d) = oracle::compare_tys(&srcm, &format!("method {:?} argument", m.original_name), wa, &ga) {
-                    out.push(("method-differs", d));
+                    md.push(d);
                 }
                 if let Some(d) = oracle::compare_tys(&srcm, &format!("method {:?} result", m.original_name), wr, &gr) {
-                    out.push(("method-differs", d));
+                    md.push(d);
                 }
             }
         }
@@ -375,18 +411,34 @@ fn evaluate(c: &Case, pl: &Planned, build: &scratch::BuildResult, idx: usize, ta
                 tally.methods_compared += 1;
                 let g: Vec<Option<DumpRes>> = (0..gi.len()).map(|j| margs.get(&('N', 0, j)).cloned()).collect();
                 if let Some(d) = oracle::compare_tys(&srcm, "init argument", wi, &g) {
-                    out.push(("method-differs", d));
+                    md.push(d);
                 }
             }
-            (w, g) => out.push(("method-differs", format!("init args: source has {}, emitted has {}", w.is_some(), g.is_some()))),
+            (w, g) => md.push((format!("init args: source has {}, emitted has {}", w.is_some(), g.is_some()), "init args presence".into())),
         }
     } else if !e.methods.is_empty() {
-        out.push(("method-differs", "methods emitted for a program without a service".into()));
+        md.push(("methods emitted for a program without a service".into(), "methods without service".into()));
+    }
+    if !td.is_empty() {
+        let more = if td.len() > 1 { format!(" (+{} more differences)", td.len() - 1) } else { String::new() };
+        let sig = r
+            .signature
+            .clone()
+            .or_else(|| md.first().map(|m| m.1.clone()))
+            .or_else(|| r.item_signature.clone())
+            .unwrap_or_else(|| td[0].clone());
+        out.push(("type-differs", format!("{}{more}", td[0]), sig));
+    }
+    if !r.lost.is_empty() {
+        out.push(("lost-definition", r.lost.join("; "), r.lost.join("; ")));
+    }
+    if let Some((m, sig)) = md.first() {
+        out.push(("method-differs", m.clone(), sig.clone()));
     }
     out
 }
 
-fn case_json(c: &Case, pl: &Planned, clause: &str, build: Option<&scratch::BuildResult>, idx: usize) -> Value {
+fn case_json(c: &Case, pl: &Planned, clause: &str, errs: Option<&Vec<scratch::CompileError>>) -> Value {
     let mut v = json!({
         "did": pl.src,
         "family": c.family,
@@ -394,13 +446,13 @@ fn case_json(c: &Case, pl: &Planned, clause: &str, build: Option<&scratch::Build
         "type_defs": pl.emit.as_ref().map(|e| excerpt(&e.type_defs, 4000)),
         "methods": pl.emit.as_ref().map(|e| e.methods.iter().map(|m| json!({"name": m.original_name, "rust_name": m.rust_name, "args": m.args, "rets": m.rets})).collect::<Vec<_>>()),
     });
-    if let Some(b) = build {
-        if let Some(errs) = b.failed.get(&idx) {
-            v["rustc"] = json!(errs.iter().take(3).map(|e| excerpt(&e.rendered, 1500)).collect::<Vec<_>>());
-        }
+    if let Some(errs) = errs {
+        v["rustc"] = json!(errs.iter().take(3).map(|e| excerpt(&e.rendered, 1500)).collect::<Vec<_>>());
     }
     v
 }
+
+const PRIORITY: &[&str] = &["panic", "collapse", "does-not-compile", "type-differs", "lost-definition", "method-differs"];
 
 /// The whole pipeline over a list of cases. `tag` names the generated crate.
 fn pipeline(ctx: &Ctx, cases: &[Case], tag: &str, nbins: usize) -> (Report, Tally, Value) {
@@ -417,27 +469,41 @@ fn pipeline(ctx: &Ctx, cases: &[Case], tag: &str, nbins: usize) -> (Report, Tall
     let emit_done = planned.iter().all(|p| p.is_some());
     // phase 2: the generated crate
     let modules: Vec<scratch::Module> = planned.iter().flatten().filter_map(|p| p.module.clone()).collect();
-    let mut krate = scratch::Crate::create(tag, &modules, nbins);
-    for (i, p) in planned.iter().enumerate() {
-        if let Some(p) = p {
+    let mut krate = scratch::Crate::create(tag, &modules, nbins, true);
+    for (b, mods) in krate.bins.iter().enumerate() {
+        for i in mods {
             // the program next to its module, for people reading the scratch crate
-            if p.module.is_some() {
-                for (b, mods) in krate.bins.iter().enumerate() {
-                    if mods.contains(&i) {
-                        let _ = std::fs::write(krate.dir.join(format!("src/bin/b{b}/m{i}.did")), &p.src);
-                    }
-                }
+            if let Some(Some(p)) = planned.get(*i) {
+                let _ = std::fs::write(krate.dir.join(format!("src/bin/b{b}/m{i}.did")), &p.src);
             }
         }
     }
     let build = krate.build_and_run(10);
     rep.transitions += modules.len() as u64;
+    // phase 2b: the generator's text alone, for the modules that failed
+    let bare_modules: Vec<scratch::Module> = modules
+        .iter()
+        .filter(|m| build.failed.get(&m.idx).is_some_and(|errs| !errs.iter().any(|x| x.line >= m.defs_lo && x.line <= m.defs_hi)))
+        .map(|m| {
+            let text: String = m.text.lines().take(m.defs_hi).map(|l| format!("{l}\n")).collect();
+            scratch::Module { idx: m.idx, text, defs_lo: m.defs_lo, defs_hi: m.defs_hi, meth_lo: usize::MAX }
+        })
+        .collect();
+    let bare = if bare_modules.is_empty() {
+        scratch::BuildResult::default()
+    } else {
+        let mut k = scratch::Crate::create(&format!("{tag}_bare"), &bare_modules, nbins.min(bare_modules.len().div_ceil(8)).max(1), false);
+        rep.transitions += bare_modules.len() as u64;
+        k.build_and_run(10)
+    };
     // phase 3: comparison
     let mut tally = Tally::default();
     let mut fam_out: BTreeMap<String, u64> = BTreeMap::new();
     let mut rejected = 0u64;
     let mut rejected_samples = vec![];
     let mut method_name_clashes = 0u64;
+    let mut undecided = 0u64;
+    let mut pending: Vec<(usize, String, String, Value)> = vec![];
     for (i, c) in cases.iter().enumerate() {
         let Some(pl) = &planned[i] else { continue };
         if let Some(r) = &pl.rejected {
@@ -448,8 +514,12 @@ fn pipeline(ctx: &Ctx, cases: &[Case], tag: &str, nbins: usize) -> (Report, Tall
             rep.outcome(&format!("{}:rejected-by-front-end", c.family));
             continue;
         }
-        let mut findings: Vec<(&'static str, String)> = pl.pre.clone();
-        findings.extend(evaluate(c, pl, &build, i, &mut tally));
+        let mut findings: Vec<Finding> = pl.pre.clone();
+        findings.extend(evaluate(c, pl, &build, &bare, i, &mut tally));
+        let is_undecided = build.undecided.contains(&i) || (build.failed.contains_key(&i) && bare.undecided.contains(&i));
+        if is_undecided {
+            undecided += 1;
+        }
         if let Some(e) = &pl.emit {
             let names: BTreeSet<&String> = e.methods.iter().map(|m| &m.rust_name).collect();
             if names.len() != e.methods.len() {
@@ -460,49 +530,57 @@ fn pipeline(ctx: &Ctx, cases: &[Case], tag: &str, nbins: usize) -> (Report, Tall
             }
             rep.traces_validated += 1;
         }
+        findings.sort_by_key(|f| PRIORITY.iter().position(|p| *p == f.0).unwrap_or(99));
         let class = if findings.is_empty() {
-            if build.undecided.contains(&i) {
+            if is_undecided {
                 "undecided".to_string()
             } else {
                 "ok".to_string()
             }
         } else {
-            let cl: BTreeSet<&str> = findings.iter().map(|f| f.0).collect();
-            cl.into_iter().collect::<Vec<_>>().join("+")
+            findings[0].0.to_string()
         };
         *fam_out.entry(format!("{}:{}", c.family, class)).or_insert(0) += 1;
         rep.outcome(&format!("{}:{}", c.family, class));
         if findings.is_empty() && rep.samples.len() < 4 && !pl.items.is_empty() {
             rep.sample(json!({"did": pl.src, "items": pl.items.iter().map(|i| i.name.clone()).collect::<Vec<_>>(), "verdict": "compiled; every item equal to its source type"}));
         }
-        // one violation per clause and program
-        let mut seen = BTreeSet::new();
-        for (clause, msg) in findings {
-            if seen.insert(clause) {
-                rep.violation(&key_of(clause, &pl.src), format!("[{}] {}", c.family, msg), case_json(c, pl, clause, Some(&build), i));
-            } else {
-                rep.violation_count += 0;
-            }
+        // one violation per program: the first clause in PRIORITY order; the others are
+        // listed in the message (they are usually consequences)
+        if let Some((clause, msg, sig)) = findings.first() {
+            let others: Vec<String> = findings.iter().skip(1).map(|f| format!("{}: {}", f.0, excerpt(&f.1, 160))).collect();
+            let also = if others.is_empty() { String::new() } else { format!(" || also {}", others.join(" || ")) };
+            let errs = build.failed.get(&i).or_else(|| bare.failed.get(&i));
+            let one_line = pl.src.trim().replace('\n', " ");
+            pending.push((pl.src.len(), format!("{clause}:{sig}"), format!("[{}] {} :: {}{}", c.family, one_line, msg, also), case_json(c, pl, clause, errs)));
         }
     }
-    rep.level("compile+compare", (tally.modules_compiled + tally.modules_failed) as u64, emit_done && build.undecided.is_empty());
-    if !build.undecided.is_empty() {
-        rep.notes.push(format!("{} modules were not decided: the generated crate still failed after {} rounds", build.undecided.len(), build.rounds));
+    // the smallest program of each key is the one that is kept (and replayed)
+    pending.sort_by(|a, b| (a.0, &a.1).cmp(&(b.0, &b.1)));
+    for (_, key, msg, case) in pending {
+        rep.violation(&key, msg, case);
     }
+    rep.level("compile+compare", tally.modules_compiled + tally.modules_failed, emit_done && undecided == 0);
+    if undecided > 0 {
+        rep.notes.push(format!("{undecided} modules were not decided: the generated crate still failed after {} rounds", build.rounds.max(bare.rounds)));
+    }
+    rep.states = cases.len() as u64;
     rep.count("programs", cases.len() as u64);
     rep.count("programs_rejected_by_front_end", rejected);
     rep.count("modules_generated", modules.len() as u64);
     rep.count("modules_compiled_and_run", tally.modules_compiled);
     rep.count("modules_failing_to_compile", tally.modules_failed);
+    rep.count("modules_rebuilt_with_type_defs_alone", bare_modules.len() as u64);
     rep.count("items_exported", tally.items_compared);
     rep.count("type_comparisons", tally.comparisons);
     rep.count("methods_compared", tally.methods_compared);
     rep.count("programs_with_colliding_rust_method_names(not a verdict)", method_name_clashes);
-    rep.count("cargo_rounds", build.rounds as u64);
     rep.transitions += tally.items_compared;
     let extra = json!({
         "by_family": fam_out,
-        "build_wall_s": build.build_wall_s,
+        "build_wall_s": build.build_wall_s + bare.build_wall_s,
+        "cargo_rounds_wall_s_and_failed_bins": {"with_checks": build.round_walls, "type_defs_alone": bare.round_walls},
+        "run_wall_s": build.run_wall_s,
         "rejected_samples": rejected_samples,
         "generated_crate": krate.dir.to_string_lossy(),
     });
@@ -521,6 +599,8 @@ const ASSUMPTIONS: &[&str] = &[
 ];
 
 fn run(tier: Tier) -> i32 {
+    // replay files of earlier runs of this property would be mistaken for current ones
+    let _ = std::fs::remove_dir_all("/verif/replays/C18");
     let ctx = Ctx::new("C18", tier, tier.pick(300, 1500));
     let cases = scope(tier);
     let nbins = ctx.threads.clamp(1, 16).min(cases.len().div_ceil(20).max(1));
@@ -623,6 +703,7 @@ fn replay(path: &str) -> i32 {
     let tag = format!("replay{}", std::process::id());
     let (rep, _t, _e) = pipeline_with_src(&ctx, &cases, did, &tag);
     let _ = std::fs::remove_dir_all(std::path::Path::new(scratch::WORK).join(&tag));
+    let _ = std::fs::remove_dir_all(std::path::Path::new(scratch::WORK).join(format!("{tag}_bare")));
     let want = v["key"].as_str();
     let mut hit = false;
     for vio in &rep.violations {
